@@ -67,9 +67,11 @@ fn c04_states(sc: &Scenario) -> Vec<MBucket> {
     for i in 0..sc.keys {
         let _ = m.at_mut(&[b"d".to_vec()]).unwrap().put(&key(i), &value(0, i, 90));
     }
+    let _ = m.at_mut(&[b"d".to_vec()]).unwrap().put(b"version", &0u64.to_be_bytes());
     v.push(m.clone());
     for c in 1..=sc.commits {
         let b = m.at_mut(&[b"d".to_vec()]).unwrap();
+        let _ = b.put(b"version", &(c as u64).to_be_bytes());
         for i in 0..sc.keys {
             let _ = b.put(&key(i), &value(c, i, 90 + c));
         }
@@ -96,6 +98,7 @@ fn prepare(sc: &Scenario, path: &std::path::Path) -> Result<DB, String> {
             for i in 0..sc.keys {
                 b.put(key(i), value(0, i, 90)).map_err(|e| e.to_string())?;
             }
+            b.put("version", 0u64.to_be_bytes()).map_err(|e| e.to_string())?;
         } else {
             b.put("counter", 0u64.to_be_bytes()).map_err(|e| e.to_string())?;
         }
@@ -116,7 +119,8 @@ fn reach_of_newest(path: &std::path::Path, ps: u64) -> Option<(u64, BTreeSet<u64
 
 fn c04_writer(db: DB, sc: Scenario, path: std::path::PathBuf, log: Log) -> Box<dyn FnOnce(Arc<Inner>) + Send> {
     Box::new(move |g: Arc<Inner>| {
-        for c in 1..=sc.commits {
+        let n_threads = sc.writers.max(1);
+        for _round in 0..(sc.commits / n_threads) {
             g.point(sched::P_BEFORE_BEGIN);
             log.lock().unwrap().push(Ev::WriterBeginCall { seq: g.tick() });
             let tx = match db.tx(true) {
@@ -128,8 +132,12 @@ fn c04_writer(db: DB, sc: Scenario, path: std::path::PathBuf, log: Log) -> Box<d
             };
             let ts = tx.verif_tx_state();
             log.lock().unwrap().push(Ev::WriterBeginRet { seq: g.tick(), tx_id: ts.tx_id, free: ts.free.clone() });
+            let c: usize;
             {
                 let b = tx.get_bucket("d").unwrap();
+                // the commit number comes from the database: whichever writer thread runs next extends the chain
+                c = b.get_kv("version").map(|kv| u64::from_be_bytes(kv.value().try_into().unwrap_or([0; 8]))).unwrap_or(0) as usize + 1;
+                b.put("version", (c as u64).to_be_bytes()).unwrap();
                 for i in 0..sc.keys {
                     b.put(key(i), value(c, i, 90 + c)).unwrap();
                 }
@@ -313,10 +321,12 @@ fn execute(sc: &Scenario, mode: Mode, path: &std::path::Path, st: &mut St) -> Re
     let inside = Arc::new(AtomicI32::new(0));
     let mut roles: Vec<&'static str> = Vec::new();
     if is_c04 {
-        let l: Log = Arc::new(Mutex::new(Vec::new()));
-        logs.push(l.clone());
-        roles.push("writer");
-        workers.push(c04_writer(db.clone(), sc.clone(), path.to_path_buf(), l));
+        for _ in 0..sc.writers.max(1) {
+            let l: Log = Arc::new(Mutex::new(Vec::new()));
+            logs.push(l.clone());
+            roles.push("writer");
+            workers.push(c04_writer(db.clone(), sc.clone(), path.to_path_buf(), l));
+        }
         for _ in 0..sc.readers {
             let l: Log = Arc::new(Mutex::new(Vec::new()));
             logs.push(l.clone());
@@ -638,6 +648,10 @@ pub fn scenarios(prop: &str, thorough: bool) -> Vec<Scenario> {
             Scenario { readers: 2, commits: 2, rereads: 1, ..base.clone() },
             Scenario { commits: 4, rereads: 1, reads_per_reader: 2, ..base.clone() },
             Scenario { commits: 2, grow_at: 2, num_pages: 16, ..base.clone() },
+            // three readers of different ages (the oldest may close first)
+            Scenario { readers: 3, commits: 4, rereads: 1, ..base.clone() },
+            // two writer threads extending one chain (a writer may queue behind an open writer)
+            Scenario { writers: 2, readers: 1, commits: 4, rereads: 1, ..base.clone() },
         ];
         if thorough {
             v.push(Scenario { readers: 2, commits: 3, rereads: 2, ..base.clone() });
@@ -686,7 +700,7 @@ fn handle(ctx: &Ctx, shard: &mut Shard, st: &mut St, sc: &Scenario, out: &Outcom
         let sched_txt: Vec<String> = out.trace.decisions.iter().map(|d| format!("w{}@{}", d.chosen, sched::point_name(d.at))).collect();
         let mut r = replay.clone();
         r["schedule_readable"] = serde_json::json!(sched_txt);
-        shard.violation(ctx, sig, &format!("[{} r={} w={} commits={} grow_at={} via {}] {}", sc.property, sc.readers, sc.writers, sc.commits, sc.grow_at, how, detail), &r);
+        shard.violation(ctx, sig, &format!("[{} r={} w={} commits={} grow_at={} via {}] {}", sc.property, sc.readers, sc.writers.max(1), sc.commits, sc.grow_at, how, detail), &r);
     }
     if shard.samples.len() < 2 && out.trace.preemptions >= 1 && out.trace.decisions.len() > 10 {
         let sched_txt: Vec<String> = out.trace.decisions.iter().take(40).map(|d| format!("w{}@{}", d.chosen, sched::point_name(d.at))).collect();
